@@ -43,11 +43,6 @@ ASSUMPTIONS = [
     "sources, imported only by child processes started under the ASan runtime",
 ]
 
-# Which `anneal_puso.c` the Lean model mirrors: False = the code as it is (`index[0] = 0;` unconditionally, defect D5:
-# `puso_mem_safe_partial` needs a term); True = after the repair `if(num_terms) index[0] = 0;` (`puso_mem_safe_repaired`).
-# Flip to True when the repair is committed to /repo (the sanitizer, not the model, decides violations either way).
-D5_REPAIRED = os.environ.get("VERIF_C17_D5_REPAIRED", "1") == "1"    # repaired upstream (958732b)
-
 SAN_MARKS = ("ERROR: AddressSanitizer", "runtime error:", "ERROR: UndefinedBehaviorSanitizer", "AddressSanitizer:DEADLYSIGNAL")
 MARK = "@@C17 "
 
@@ -97,7 +92,6 @@ def _child_main():
         print(MARK + "FATAL wrong qubovert " + A.__file__, flush=True); return 3
     orig = (A.c_anneal_quso, A.c_anneal_puso)
     cur = {"i": None}
-    skip_d5 = os.environ.get("C17_SKIP_D5") == "1"
 
     def say(tag, obj):
         sys.stdout.write(MARK + tag + " " + json.dumps(obj, separators=(",", ":")) + "\n"); sys.stdout.flush()
@@ -111,9 +105,6 @@ def _child_main():
         return out
 
     def rec_puso(N, nc, terms, cs, Ts, na, in_order, init, seed):
-        if skip_d5 and len(cs) == 0 and N >= 1:
-            say("SKIP", {"i": cur["i"], "why": "D5 shape (no term reaches c_anneal_puso), already demonstrated in this run"})
-            raise RuntimeError("C17: call skipped")
         say("CALL", {"i": cur["i"], "kind": "puso", "N": int(N), "nc": [int(x) for x in nc], "terms": [int(x) for x in terms],
                      "cs": [bits(x) for x in cs], "Ts": [bits(x) for x in Ts], "num_anneals": int(na),
                      "in_order": bool(in_order), "init": [int(x) for x in init], "seed": int(seed)})
@@ -175,12 +166,12 @@ def _child_main():
 
 # ------------------------------------------------------------------ parent: running children
 
-def run_child(items, timeout, skip_d5=False):
+def run_child(items, timeout):
     """one child over `items` = [(i, case)]; returns (records, died_at)"""
     inp = "".join(json.dumps({"i": i, "case": c}, separators=(",", ":"), default=str) + "\n" for i, c in items)
     try:
         r = subprocess.run(["/venv/bin/python", "-u", "-m", "harness.c17", "--child"], input=inp, capture_output=True,
-                           text=True, cwd=common.ROOT, env=dict(asan_env(asan_dir()), C17_SKIP_D5="1" if skip_d5 else "0"),
+                           text=True, cwd=common.ROOT, env=asan_env(asan_dir()),
                            timeout=timeout)
     except subprocess.TimeoutExpired:
         raise common.Infra("sanitised child timed out after %ds" % timeout)
@@ -198,8 +189,6 @@ def run_child(items, timeout, skip_d5=False):
             recs[o["i"]] = {"call": None, "out": None, "api": None, "san": ""}; order.append(o["i"])
         elif tag == "CALL":
             i = o.pop("i"); recs[i]["call"] = o
-        elif tag == "SKIP":
-            recs[o["i"]]["skipped"] = o["why"]
         elif tag == "OUT":
             recs[o["i"]]["out"] = o["out"]
         elif tag == "RES":
@@ -230,17 +219,14 @@ def run_child(items, timeout, skip_d5=False):
     return recs, died
 
 def run_history(items, timeout=600, cap=40):
-    """the items as ONE history; a child killed by a sanitizer report is restarted after the failing call.
-    After 3 reports of the D5 shape the following children skip calls of exactly that shape (counted, noted);
+    """the items as ONE history; a child killed by a sanitizer report is restarted after the failing call;
     after `cap` restarts the rest of the history is not run (there are `cap` concrete failing inputs by then)."""
-    out, pending, restarts, d5 = {}, list(items), 0, 0
+    out, pending, restarts = {}, list(items), 0
     while pending:
-        recs, died = run_child(pending, timeout, skip_d5=(d5 >= 3))
+        recs, died = run_child(pending, timeout)
         out.update(recs)
         if died is None:
             break
-        if d5_shape(recs[died].get("call")):
-            d5 += 1
         k = [i for i, _ in pending].index(died)
         pending = pending[k + 1:]
         restarts += 1
@@ -282,13 +268,13 @@ def py_wf(call):
                 (len(init) == 0 or (len(init) == N and spins)) and na >= 1 and na * N <= I and
                 len(call["J"]) <= I and len(call["Ts"]) <= I)
     N = call["N"]
-    return (N >= 1 and len(call["nc"]) == len(call["cs"]) >= (0 if D5_REPAIRED else 1) and all(x >= 1 for x in call["nc"]) and
+    return (N >= 1 and len(call["nc"]) == len(call["cs"]) and all(x >= 1 for x in call["nc"]) and
             sum(call["nc"]) == len(call["terms"]) and all(0 <= x < N for x in call["terms"]) and
             (len(init) == 0 or (len(init) == N and spins)) and na >= 1 and na * N <= I and
             len(call["terms"]) < I and len(call["Ts"]) <= I)
 
 def model_line(call):
-    l = dict(call, op="c17_" + call["kind"], guard=D5_REPAIRED)
+    l = dict(call, op="c17_" + call["kind"], guard=True)
     l["seed"] = max(call["seed"], 0)        # seed < 0: clock seeding; only the verdict is compared
     return l
 
@@ -358,7 +344,8 @@ def gen_c17(rng, big=False):
             "num_anneals": rng.choice([1, 1, 2, 3, 5])}
 
 def d5_cases():
-    """defect D5 through the public API (DESIGN.md §10): N >= 1 but no term reaches `c_anneal_puso`"""
+    """regression inputs of the repaired defect D5 (DESIGN.md §10, /repo 958732b) through the public API: N >= 1 but no
+    term reaches `c_anneal_puso`; they must run clean under ASan (signature C17:D5-puso-index-write-with-zero-terms)"""
     base = {"family": "anneal", "labels": "int", "num": "int", "init": None, "in_order": True, "seed": 0,
             "sched": {"t": "explicit", "Ts": [1.0, 0.5]}, "num_anneals": 1, "shape": "D5"}
     return [dict(base, fn="puso", kind="PUSOMatrix", ops=[[[0, 1, 2], "1"], [[0, 1, 2], "-1"]]),
@@ -374,14 +361,17 @@ def direct_cases(full):
     out = [("quso-neighbor-eq-N", "quso", dict(q, nb=[1, 0, 3, 1])),
            ("puso-label-eq-N", "puso", dict(p, terms=[0, 1, 1, 2, 4, 2])),
            ("quso-zero-spins", "quso", dict(q, h=[], nn=[], nb=[], J=[]))]
-    if not D5_REPAIRED:
-        out.append(("puso-zero-terms", "puso", dict(p, nc=[], terms=[], cs=[])))
+
     if full:
         out += [("quso-nn-sum-too-big", "quso", dict(q, nn=[1, 2, 9])),
                 ("puso-nc-sum-too-big", "puso", dict(p, nc=[2, 3, 9])),
                 ("quso-negative-neighbor", "quso", dict(q, nb=[1, 0, -1, 1])),
                 ("puso-negative-label", "puso", dict(p, terms=[0, 1, 1, -1, 3, 2]))]
-    return [{"family": "direct", "name": n, "kind": k, "args": a} for n, k, a in out]
+    res = [{"family": "direct", "name": n, "kind": k, "args": a} for n, k, a in out]
+    # D5 regression input, directly: N >= 1 and no term is inside WF since the repair 958732b
+    res.append({"family": "direct", "name": "puso-zero-terms-valid", "kind": "puso", "valid": True,
+                "args": dict(p, nc=[], terms=[], cs=[])})
+    return res
 
 # ------------------------------------------------------------------ the check
 
@@ -401,8 +391,9 @@ def judge(ctx, case, rec, m, family="api"):
         kind, excerpt = rep
         if d5_shape(call) and kind == "heap-buffer-overflow" and "WRITE of size 8" in excerpt:
             sig = "C17:D5-puso-index-write-with-zero-terms"
-            why = ("anneal_puso.c:295 `index[0] = 0` writes into malloc(num_terms * sizeof(long)) with num_terms == 0: "
-                   "the front end reached c_anneal_puso with N=%d and no term (all terms cancelled). " % call["N"]) + excerpt
+            why = ("regression of the repaired defect D5 (/repo 958732b): anneal_puso.c writes `index[0]` into "
+                   "malloc(num_terms * sizeof(long)) with num_terms == 0; c_anneal_puso was reached with N=%d and no term "
+                   "(all terms cancelled). " % call["N"]) + excerpt
         else:
             sig = "C17:sanitizer:" + kind
             why = "sanitizer report during the call (%s): %s" % (
@@ -436,11 +427,7 @@ def process(ctx, cases, sample_fresh):
     items = list(enumerate(cases))
     hist, restarts = run_history(items, cap=ctx.scale(40, 150))
     ctx.count("children-restarted-after-report", restarts)
-    nskip = sum(1 for r in hist.values() if r.get("skipped"))
     nnot = sum(1 for r in hist.values() if r.get("not_run"))
-    if nskip:
-        ctx.notes.append("%d calls of the D5 shape (no term reaches c_anneal_puso) were skipped after the defect had been "
-                         "demonstrated 3 times in this run (each report kills the child process)" % nskip)
     if nnot:
         ctx.notes.append("%d calls were not run: the history was cut after %d sanitizer reports" % (nnot, restarts))
     lines, idx = [], []
@@ -456,8 +443,6 @@ def process(ctx, cases, sample_fresh):
             raise common.Infra("case %d was not run" % i)
         if rec.get("not_run"):
             ctx.count("not-run-after-restart-cap"); continue
-        if rec.get("skipped"):
-            ctx.count("skipped-D5-shape-after-3-reports")
         ctx.case(c, nontrivial(c, rec))
         call = rec.get("call")
         ctx.count("%s:%s" % (c.get("fn", c.get("kind")), "kernel" if call else "early"))
@@ -504,6 +489,10 @@ def process_direct(ctx, cases):
         recs, _ = run_child([(0, c)], 120)
         rep = san_report(recs[0])
         ctx.case(c, False); ctx.count("direct:" + c["name"])
+        if c.get("valid"):
+            # arguments inside WF handed directly to the extension (the D5 regression input): ok on both sides
+            judge(ctx, c, recs[0], m)
+            continue
         if "memerr" not in m or m.get("wf"):
             ctx.diff("direct", c, {"expected": "MemErr and not wf"}, m)
         if not rep:
